@@ -262,3 +262,18 @@ pub(crate) fn model_utf16_decode<'a>(
     }
     (std::borrow::Cow::Owned(s), e, false)
 }
+
+/// Single-byte (ASCII subset) model of encoding_rs::Encoding::decode for the MBCS name records of the VBA dir stream.
+pub(crate) fn model_sbcs_decode<'a>(
+    e: &'static encoding_rs::Encoding,
+    bytes: &'a [u8],
+) -> (std::borrow::Cow<'a, str>, &'static encoding_rs::Encoding, bool) {
+    let mut s = String::with_capacity(8);
+    let v = unsafe { s.as_mut_vec() };
+    let mut i = 0;
+    while i < bytes.len() {
+        v.push(bytes[i] & 0x7F);
+        i += 1;
+    }
+    (std::borrow::Cow::Owned(s), e, false)
+}
